@@ -60,9 +60,11 @@ EvProbe ==
 
 \* n digits in ASCII mode need ceil(n/2) codewords; 3m X12 characters in X12 mode need 2m+1 codewords (latch + m pairs; an
 \* unlatch before the padding only if the symbol is not full, which never changes the symbol that is first large enough)
-ProbeNeed(kind, n) == IF kind = "ProbeDigits" THEN (n + 1) \div 2 ELSE IF n = 0 THEN 0 ELSE 2 * n + 1
+\* a macro 05 envelope around n digits is compacted to the macro codeword + the digits
+ProbeNeed(kind, n) == IF kind = "ProbeDigits" THEN (n + 1) \div 2 ELSE IF kind = "ProbeMacro" THEN 1 + (n + 1) \div 2
+                      ELSE IF n = 0 THEN 0 ELSE 2 * n + 1
 EvProbe2 ==
-  /\ (IsEvent("ProbeDigits") \/ IsEvent("ProbeX12"))
+  /\ (IsEvent("ProbeDigits") \/ IsEvent("ProbeX12") \/ IsEvent("ProbeMacro"))
   /\ LET want == FirstBigEnough(E.list, ProbeNeed(E.ev, E.n)) IN
      v_fails' = v_fails \cup ListFails(v_list)
        \cup (IF E.res.kind \notin {"Ok", "Err"} THEN {"C12.probePanic"} ELSE {})
